@@ -91,6 +91,8 @@ IMPL = {
     'eq': lambda A, B: bool(A.eq(B)),
 }
 
+# operators that return a new value object: the object is kept to see that later results do not disturb it
+OBJ = {'intdiv': V.intdiv, 'mod': V.mod_, 'and': V.and_, 'or': V.or_, 'xor': V.xor_, 'eqv': V.eqv_, 'imp': V.imp_}
 OPS = list(REF)
 BASICError = error.BASICError
 
@@ -107,6 +109,8 @@ def _binary_pairs(part, op, pairs_a, bset, both_orders):
     bbuf = B._buffer
     ref = REF[op]
     impl = IMPL[op]
+    objfn = OBJ.get(op)
+    prev = None
     inplace = {'iadd': lambda A, B: A.iadd(B), 'isub': lambda A, B: A.isub(B)}.get(op)
     pack = struct.pack_into
     unpack = struct.unpack_from
@@ -120,7 +124,17 @@ def _binary_pairs(part, op, pairs_a, bset, both_orders):
                 pack('<h', abuf, 0, x)
                 pack('<h', bbuf, 0, y)
                 try:
-                    got = ('ok', impl(A, B))
+                    if objfn is not None:
+                        robj = objfn(A, B)
+                        got = ('ok', robj.to_int())
+                        if prev is not None and (prev[0] is robj or prev[0].to_int() != prev[1]):
+                            part.violation('%s/earlier-result-changed' % op,
+                                           'the result %d of the previous application reads %d after %d %s %d was computed%s' % (
+                                               prev[1], prev[0].to_int(), x, op, y, ' (same object returned)' if prev[0] is robj else ''),
+                                           {'op': op, 'a': x, 'b': y})
+                        prev = (robj, got[1])
+                    else:
+                        got = ('ok', impl(A, B))
                 except BASICError as e:
                     got = ('err', e.err)
                 exp = ref(x, y)
